@@ -26,6 +26,8 @@ def dispatch (st : DState) (toks : List String) : DState × String :=
     ({ st with tr := tr }, out)
   | ["EC", flat, onlyTop, incl] =>
     ({ st with ctFlat := flat == "1", ct := { st := { onlyTop := onlyTop == "1" }, includePrecompiles := incl == "1" } }, "ok")
+  | ["EC", flat, onlyTop, incl, parity] =>
+    ({ st with ctFlat := flat == "1", ct := { st := { onlyTop := onlyTop == "1" }, includePrecompiles := incl == "1", parity := parity == "1" } }, "ok")
   | "E" :: rest =>
     let (c, out) := Driver.ctEvent st.ct st.ctFlat rest
     ({ st with ct := c }, out)
@@ -77,10 +79,13 @@ def dispatch (st : DState) (toks : List String) : DState × String :=
   | "S" :: "tracer-same" :: _ => (st, "same")
   | "S" :: "tracer-same-tree" :: _ => (st, "same")
   | ["S", "ctrender"] => (st, "ok")
-  | ["S", "ctflatinv"] => (st, "ok")
+  | ["S", "ctflatinv"] => (st, if preFirstB st.ct.st then "ok" else "join_points_not_pre_first:theorems_do_not_apply")
   | ["S", "ctflatown"] => (st, "ok")
   | ["S", "attributed"] => (st, "ok")
   | ["S", "jran"] => (st, "ok")
+  | ["S", "wf-any-history"] => (st, "ok")
+  | ["S", "solstring-sequence"] => (st, "ok")
+  | ["S", "pops-same"] => (st, "same")
   | ["S", "tstore-static"] => (st, "ok")
   | "S" :: "stdwork" :: _ => (st, "ok")
   | ["S", "jp"] => (st, "ok")
